@@ -46,6 +46,7 @@ type vfcClient struct {
 	hits    int
 	iss     [][]string // paths for which the current reply carried a handle
 	pending M
+	snap    int64 // bytes of file data logged per file (0: 200)
 }
 
 func (c *vfcClient) hold(h uint64, p []string) {
@@ -96,7 +97,11 @@ func (c *vfcClient) attrRec(role, when string, p []string, a interface{}) M {
 
 func (c *vfcClient) tree() []M {
 	out := []M{}
-	for _, n := range c.fs.Snapshot(200) {
+	snap := c.snap
+	if snap == 0 {
+		snap = 200
+	}
+	for _, n := range c.fs.Snapshot(snap) {
 		sz, big := vfcCap(uint64(n.Sz))
 		tc := []string{}
 		if n.T != "" {
@@ -174,8 +179,12 @@ func (c *vfcClient) req(proc uint32, args []byte, meta M, roles map[string][]str
 			}
 			if d, ok := v["data"].([]byte); ok {
 				ints := make([]int, 0, len(d))
+				lim := int(c.snap)
+				if lim == 0 {
+					lim = 200
+				}
 				for i, b := range d {
-					if i >= 200 {
+					if i >= lim {
 						break
 					}
 					ints = append(ints, int(b))
